@@ -109,7 +109,7 @@ func c01Sequential(r *core.Run, idx int, rng *rand.Rand) {
 		e.W.ForgetUser(sc.U.UserID)
 	case "user_lookup_error":
 		// the lookup fails at once, after delivering part of the record, late, or while the key lookup is slow
-		kind := []string{sim.FaultError, sim.FaultPartial, sim.FaultPartial, sim.FaultError}[rng.Intn(4)]
+		kind := []string{sim.FaultError, sim.FaultPartial, sim.FaultPartial, sim.FaultError, sim.FaultTimeout, sim.FaultPoolClosed}[rng.Intn(6)]
 		switch rng.Intn(3) {
 		case 0:
 			e.W.PartialDelay = 20 * time.Millisecond
@@ -127,7 +127,7 @@ func c01Sequential(r *core.Run, idx int, rng *rand.Rand) {
 			return ""
 		}
 	case "key_fault":
-		kind := []string{sim.FaultError, sim.FaultNilRecord, sim.FaultKeyNoCert, sim.FaultCertNoKey, sim.FaultEmptyCert}[rng.Intn(5)]
+		kind := []string{sim.FaultError, sim.FaultNilRecord, sim.FaultKeyNoCert, sim.FaultCertNoKey, sim.FaultEmptyCert, sim.FaultTimeout, sim.FaultPoolClosed}[rng.Intn(7)]
 		if rng.Intn(3) == 0 { // the user lookup is slower than the failing key lookup
 			e.W.Before = func(_ context.Context, _, op string, _ int) {
 				if op == "SetUserinfoWithUserID" {
